@@ -74,7 +74,7 @@ def _corpus_shard(item):
 def run(report):
     quick = report.tier == "quick"
     report.rule = RULE
-    switches = sorted(open_switches())
+    switches = sorted(open_switches('C01'))
     for s in switches:
         report.exclusions[s] = "shape not generated (open finding)"
     progs = pool.all_programs()
